@@ -12,6 +12,7 @@ real VM under the harness `trace` command (hook H4) and compared
              determines the outcome."""
 import os
 import re
+import time
 
 import yvlib
 from yvlib import hx
@@ -33,6 +34,7 @@ ASSUMPTIONS = [
 CASE_TIMEOUT_MS = 4000     # a generated program runs for milliseconds; an endless loop in a mutant costs this much
 TRACE_LIMIT = 60000        # trace records kept per program (generated programs stay below ~15000)
 EARLY_STOP = 12            # violations in the first batch after which the rest of the run is skipped
+TIMING = {}
 PROFILE = ["release"]   # quick: release build; thorough: debug build (collects at every allocation)
 
 # ------------------------------------------------------------------------------------------
@@ -296,8 +298,73 @@ def facts(body):
 # generators
 
 NUMS = [-3, -1, 0, 1, 2, 3, 4, 5, 7, 10, 12]
-CHARS = ["a", "b", "z", "0", " ", "é", "ß", "€", "中", "😀", "𝄞"]
+ASCII = ["a", "b", "z", "0", " ", "\x7f"]
 WORDS = ["a", "ab", "é", "x€", "😀", "", "yo"]
+
+# ---- the string alphabet: the table of well-formed UTF-8 byte sequences (Unicode 3.9 table 3-7 / RFC 3629), one
+# row per (lead-byte range, constraint on the second byte); the two-byte row C2..DF is split by the lead byte's high
+# nibble.  Every string the generators build draws its characters from EVERY row, and the directed stream `utf8`
+# walks every single lead byte (0xC2..0xF4) with the smallest / largest / two inner continuation patterns.
+UTF8_CLASSES = [
+    ("00-7F", 0x20, 0x7F), ("C2-CF", 0x80, 0x3FF), ("D0-DF", 0x400, 0x7FF), ("E0", 0x800, 0xFFF),
+    ("E1-EC", 0x1000, 0xCFFF), ("ED", 0xD000, 0xD7FF), ("EE-EF", 0xE000, 0xFFFF), ("F0", 0x10000, 0x3FFFF),
+    ("F1-F3", 0x40000, 0xFFFFF), ("F4", 0x100000, 0x10FFFF)]
+# neighbours across every boundary where the encoded width or the second-byte constraint changes
+BOUNDARY_CPS = [0x7F, 0x80, 0x3FF, 0x400, 0x7FF, 0x800, 0xFFF, 0x1000, 0xCFFF, 0xD000, 0xD7FF, 0xE000, 0xFFFF, 0x10000,
+                0x3FFFF, 0x40000, 0xFFFFF, 0x100000, 0x10FFFF]
+UNSAFE_IN_LITERAL = set('"$\\{}')    # would end the literal / start an interpolation or an escape
+
+
+def lead_ranges():
+    """lead byte -> (first, last) code point encoded with that lead byte (computed from the encoder, not typed in)"""
+    out = {}
+    for _, lo, hi in UTF8_CLASSES[1:]:
+        cp = lo
+        while cp <= hi:
+            lead = chr(cp).encode("utf-8")[0]
+            width = len(chr(cp).encode("utf-8"))
+            span = {2: 0x40, 3: 0x1000, 4: 0x40000}[width]
+            last = min(hi, (cp // span) * span + span - 1)
+            assert chr(last).encode("utf-8")[0] == lead and lead not in out
+            out[lead] = (cp, last)
+            cp = last + 1
+    return out
+
+
+LEADS = lead_ranges()                       # 30 two-byte + 16 three-byte + 5 four-byte lead bytes
+LEAD_BYTES = sorted(LEADS)
+CLASS_OF_LEAD = {}
+for _name, _lo, _hi in UTF8_CLASSES[1:]:
+    for _l, (_a, _b) in LEADS.items():
+        if _lo <= _a and _b <= _hi:
+            CLASS_OF_LEAD[_l] = _name
+VARIANTS = ["first", "last", "third", "twothirds"]
+
+
+def lead_char(lead, variant):
+    """a character with this lead byte: all continuation bytes 0x80 (as far as the row allows) / all 0xBF / inner ones"""
+    lo, hi = LEADS[lead]
+    cp = {"first": lo, "last": hi, "third": lo + (hi - lo) // 3, "twothirds": lo + 2 * ((hi - lo) // 3)}[variant]
+    return chr(cp)
+
+
+def g_char(rng, multibyte=False):
+    """one character: the row of the UTF-8 table first (uniform over the rows), then a lead byte of that row, then an
+    edge of that lead byte's range or any code point in it"""
+    name, lo, hi = rng.choice(UTF8_CLASSES[1:] if multibyte else UTF8_CLASSES)
+    if name == "00-7F":
+        return rng.choice(ASCII)
+    lead = rng.choice([l for l in LEAD_BYTES if CLASS_OF_LEAD[l] == name])
+    if rng.random() < 0.6:
+        return lead_char(lead, rng.choice(VARIANTS))
+    a, b = LEADS[lead]
+    return chr(rng.randint(a, b))
+
+
+def g_word(rng):
+    if rng.random() < 0.5:
+        return rng.choice(WORDS)
+    return "".join(g_char(rng) for _ in range(rng.choice([1, 1, 2, 3])))
 
 
 def g_values(rng, n, kind=None):
@@ -307,7 +374,7 @@ def g_values(rng, n, kind=None):
         if kind == "num" or (kind == "mixed" and rng.random() < 0.5):
             out.append(rng.choice(NUMS))
         elif kind == "str" or rng.random() < 0.8:
-            out.append(rng.choice(WORDS))
+            out.append(g_word(rng))
         else:
             out.append(None)
     return out
@@ -318,7 +385,7 @@ def g_size(rng):
 
 
 def g_string(rng, n):
-    return "".join(rng.choice(CHARS) for _ in range(n))
+    return "".join(g_char(rng) for _ in range(n))
 
 
 def g_source(rng, kind=None, size=None):
@@ -345,14 +412,14 @@ def g_source(rng, kind=None, size=None):
 
 
 def g_fn(rng):
-    return rng.choice([("add", rng.choice([-2, 1, 3, 10])), ("mul", rng.choice([2, 3])), ("tag", rng.choice(["!", "é", "_x"])),
+    return rng.choice([("add", rng.choice([-2, 1, 3, 10])), ("mul", rng.choice([2, 3])), ("tag", rng.choice(["!", "é", "_x", g_word(rng)])),
                        ("add", 1), ("mul", 2), ("const", rng.choice([0, 7]))])
 
 
 def g_pr(rng, endless=False):
     if endless:
         return rng.choice([("even",), ("gt", rng.choice([-1, 2, 5])), ("true",), ("ne", rng.choice(NUMS))])
-    return rng.choice([("even",), ("even",), ("gt", rng.choice([-1, 1, 2, 5])), ("ne", rng.choice(NUMS + WORDS)),
+    return rng.choice([("even",), ("even",), ("gt", rng.choice([-1, 1, 2, 5])), ("ne", rng.choice(NUMS + WORDS + [g_word(rng)])),
                        ("ne", None), ("true",), ("false",)])
 
 
@@ -477,8 +544,8 @@ def g_obj(rng, n, kind=None, size=None):
 
 
 # every way core.yl lets a program consume an iterable E (the methods of class Iter + the for statement + chains)
-def consumers(rng):
-    f, f2, p, p2 = g_fn(rng), g_fn(rng), g_pr(rng), g_pr(rng)
+def consumers(rng, f=None, f2=None, p=None, p2=None):
+    f, f2, p, p2 = f or g_fn(rng), f2 or g_fn(rng), p or g_pr(rng), p2 or g_pr(rng)
     return {
         "for": lambda E: [("for", E, [("pvar", 0)])],
         "for_break": lambda E: [("for", E, [("pvar", 0), ("if", 0, 2, [("break",)])])],
@@ -538,6 +605,143 @@ def field_programs(rng, quick):
                         progs.append({"fun": rng.random() < 0.5, "loc": rng.random() < 0.3, "dir": direct, "body": body,
                                       "stream": "field_next", "consumers": (kind, c1, c2)})
     return progs
+
+
+def utf8_programs(rng, quick):
+    """strings over the WHOLE table of well-formed UTF-8 sequences: (A) every lead byte 0xC2..0xF4 x {smallest, largest,
+    two inner} continuation patterns in one string (packed / separated by ASCII / reversed), walked by a loop, collect
+    and a concatenating reduce, plain and under filter(!= one of its characters).map(tag with a multi-byte tag);
+    (B) every row of the table x every consumer (for, break, shared iterator with manual next, map, filter, collect,
+    reduce, chains, nested loops over the same string); (C) the neighbours across every boundary where the width or
+    the second-byte constraint changes (7F|80, 7FF|800, D7FF|E000, FFFF|10000, ... 10FFFF) under break / continue /
+    nested / shared-iterator shapes; (D) the same characters as DATA: words in vectors, tuples and user iterators,
+    compared (!=), concatenated (tag, reduce) and printed.  S: Utf8.chars of the literal, whatever the code points."""
+    progs = []
+
+    def add(body, what, fuel=150):
+        progs.append({"fun": rng.random() < 0.5, "loc": rng.random() < 0.3, "dir": rng.random() < 0.5, "body": body,
+                      "stream": "utf8", "fuel": fuel, "utf8": what})
+
+    # (A) every lead byte
+    for variant in VARIANTS:
+        chars = [lead_char(l, variant) for l in LEAD_BYTES]
+        shapes = {"packed": "".join(chars),
+                  "separated": "".join(c + rng.choice(ASCII) for c in chars),
+                  "reversed": "".join(reversed(chars))}
+        for shape in (rng.sample(sorted(shapes), 2) if quick else sorted(shapes)):
+            s = shapes[shape]
+            src = ("str", s)
+            fuel = len(s) + 100
+            add([("for", src, [("pvar", 0)]), ("collect", src), ("reduce", "sum", "", src)], ("A", variant, shape, 0), fuel)
+            if not quick or rng.random() < 0.5:
+                drop, t = rng.choice(chars), rng.choice(chars)
+                e = ("map", ("tag", t), ("filter", ("ne", drop), src))
+                add([("collect", e), ("for", e, [("if", 0, 40, [("break",)]), ("pvar", 0)]), ("reduce", "count", 0, e)],
+                    ("A", variant, shape, 2), fuel)
+    # (B) every row of the table x every consumer
+    names = list(consumers(rng).keys())
+    for ci, (name, lo, hi) in enumerate(UTF8_CLASSES[1:]):
+        leads = [l for l in LEAD_BYTES if CLASS_OF_LEAD[l] == name]
+        todo = names if not quick else [names[(ci * 3 + j) % len(names)] for j in range(3)] + [rng.choice(names)]
+        for c in todo:
+            mine = [chr(lo), chr(hi), lead_char(rng.choice(leads), rng.choice(VARIANTS))]
+            other = [g_char(rng), g_char(rng, multibyte=True)]
+            cs_ = mine + other
+            rng.shuffle(cs_)
+            s = "".join(cs_)
+            cs = consumers(rng, f=("tag", rng.choice(mine)), p=("ne", rng.choice(mine)), p2=("ne", rng.choice(other)))
+            add(cs[c](("str", s)) + [("collect", ("str", s))], ("B", name, c))
+    # (C) boundary neighbours
+    pairs = [(BOUNDARY_CPS[i], BOUNDARY_CPS[i + 1]) for i in range(0, len(BOUNDARY_CPS) - 1, 2)] + [(0x10FFFF, 0x61), (0x10FFFF, 0x10FFFF)]
+    for a, b in pairs:
+        for order in ([rng.random() < 0.5] if quick else [True, False]):
+            ca, cb = (chr(a), chr(b)) if order else (chr(b), chr(a))
+            s = rng.choice([ca + cb, ca + cb + ca, "a" + ca + cb, ca + "a" + cb + "b"])
+            src = ("str", s)
+            shapes = [
+                [("for", src, [("pvar", 0), ("for", src, [("pvar", 1), ("if", 1, 1, [("continue",)]), ("pvar", 0)])])],
+                [("let", 0, src), ("next", 0), ("for", ("slot", 0), [("pvar", 0), ("if", 0, 1, [("next", 0)])]), ("next", 0), ("next", 0)],
+                [("for", ("filter", ("ne", cb), src), [("pvar", 0), ("if", 0, 2, [("break",)])]), ("collect", ("map", ("tag", cb), src)),
+                 ("reduce", "sum", "", src)],
+            ]
+            for body in (rng.sample(shapes, 1) if quick else shapes):
+                add(body, ("C", "%X|%X" % (a, b)))
+    # (D) the characters as data: compared, concatenated, printed
+    for variant in (rng.sample(VARIANTS, 2) if quick else VARIANTS):
+        chars = [lead_char(l, variant) for l in LEAD_BYTES]
+        words = ["".join(chars[i:i + 3]) for i in range(0, len(chars), 3)]
+        for kind in ["vec", "tup", "script"]:
+            items = list(words)
+            items.insert(rng.randrange(len(items)), rng.choice(words))     # one word twice: != must drop both
+            w1, w2 = rng.choice(words), rng.choice(words)
+            src = (kind, items)
+            e = ("map", ("tag", w2), ("filter", ("ne", w1), src))
+            add([("collect", e), ("reduce", "sum", "", src), ("for", src, [("pvar", 0)])], ("D", variant, kind), len(items) + 100)
+    return progs
+
+
+def utf8_coverage(progs):
+    """MEASURED: the lead bytes / rows of the UTF-8 table / boundary code points of the string literals the programs
+    iterate over, and of the strings they handle as data (vector elements, tags, != operands)"""
+    it_leads, data_leads, it_cps, per_class = set(), set(), set(), {}
+
+    def lead_of(ch):
+        return ch.encode("utf-8")[0]
+
+    def data(v):
+        if isinstance(v, str):
+            data_leads.update(lead_of(ch) for ch in v)
+
+    def visit(e):
+        while e[0] in ("map", "filter"):
+            if e[0] == "map" and e[1][0] == "tag":
+                data(e[1][1])
+            if e[0] == "filter" and e[1][0] == "ne":
+                data(e[1][1])
+            e = e[2]
+        if e[0] == "str":
+            rows = set()
+            for ch in e[1]:
+                it_leads.add(lead_of(ch))
+                it_cps.add(ord(ch))
+                rows.add(CLASS_OF_LEAD.get(lead_of(ch), "00-7F"))
+            for r in rows:
+                per_class[r] = per_class.get(r, 0) + 1
+        elif e[0] in ("vec", "tup", "script"):
+            for v in e[1]:
+                data(v)
+
+    for p in progs:
+        for e in iexps(p["body"]):
+            visit(e)
+        for s in walk(p["body"]):
+            if s[0] == "obj":
+                for v in s[3]:
+                    data(v)
+    return {
+        "lead_bytes_iterated": len([l for l in it_leads if l >= 0xC2]), "lead_bytes_total": len(LEAD_BYTES),
+        "lead_bytes_missing": ["%02X" % l for l in LEAD_BYTES if l not in it_leads],
+        "lead_bytes_as_data": len([l for l in data_leads if l >= 0xC2]),
+        "lead_bytes_as_data_missing": ["%02X" % l for l in LEAD_BYTES if l not in data_leads],
+        "programs_iterating_row": {name: per_class.get(name, 0) for name, _, _ in UTF8_CLASSES},
+        "boundary_code_points_missing": ["%X" % c for c in BOUNDARY_CPS if c not in it_cps],
+        "distinct_code_points_iterated": len(it_cps),
+    }
+
+
+def check_alphabet_against_model(ctx):
+    """the generator's table of lead bytes (computed from Python's encoder) against the MODEL's table
+    (Utf8.char_width, the function the string cursor of M and the Spec's Utf8.chars decode with): all 256 bytes"""
+    term = 'String.concat "" (List.map (fun n => YV.Show.show_nat (YV.Utf8.char_width (YV.Utf8.Nb (N.of_nat n)))) (List.seq 0 256))'
+    try:
+        got = yvlib.coq_eval(["YV:IterLang"], [term], tag="C18alpha", preamble="Open Scope string_scope.\n")[0]
+    except Exception as exc:
+        got = None
+        ctx.notes.append("alphabet/model cross-check not evaluated: %s" % str(exc)[:200])
+    want = "".join(str(1 if b < 0x80 else (len(lead_char(b, "first").encode("utf-8")) if b in LEADS else 0)) for b in range(256))
+    if got is not None and got != want:
+        ctx.broken.append("generator self-check: the lead-byte table of the string alphabet differs from Utf8.char_width: model %s, generators %s" % (got, want))
+    ctx.cov["utf8_table_vs_model"] = "256 bytes agree" if got == want else "NOT compared / differs"
 
 
 RUN_SIZES = [0, 1, 63, 64, 65, 200, 1000]
@@ -741,7 +945,7 @@ def directed(rng, quick):
             progs.append({"fun": True, "loc": True, "body": body, "stream": "locals"})
             if ctl != "return":
                 progs.append({"fun": False, "loc": True, "body": body, "stream": "locals"})
-    return progs + object_programs(rng, quick) + pressure_programs(rng, quick) + field_programs(rng, quick) + long_run_programs(rng, quick)
+    return progs + object_programs(rng, quick) + pressure_programs(rng, quick) + field_programs(rng, quick) + long_run_programs(rng, quick) + utf8_programs(rng, quick)
 
 
 # ------------------------------------------------------------------------------------------
@@ -780,11 +984,45 @@ def unlines(field):
     return [yvlib.unhx(x).decode("utf-8", "replace") if x else "" for x in field.split(",")]
 
 
+RETRY_TIMEOUT_MS = 30000
+RETRIED = [0, 0]          # cases re-run alone, of which finished
+
+
+def harness_line(p):
+    return ("run - " if p.get("notrace") else "trace - %d " % TRACE_LIMIT) + hx(p["src"])
+
+
+def retry_crashed(binary, ok, recs):
+    """a case that timed out or took the harness process down in the parallel batch is re-run nearly alone (4 at a time,
+    long time-out) before it is believed: on a loaded machine a generated program can exceed CASE_TIMEOUT_MS.  As soon
+    as a re-run case fails AGAIN the remaining ones keep their first result (a mutant with endless loops must not cost
+    30 s per program)."""
+    recs = list(recs)
+    bad = [i for i, r in enumerate(recs) if r.result[0] == "crash"]
+    for k in range(0, len(bad), 12):
+        chunk = bad[k:k + 12]
+        again = yvlib.run_harness(binary, [harness_line(ok[i]) for i in chunk], case_timeout_ms=RETRY_TIMEOUT_MS, shards=4)
+        RETRIED[0] += len(chunk)
+        still = 0
+        for i, r in zip(chunk, again):
+            if r.result[0] == "crash":
+                still += 1
+            else:
+                RETRIED[1] += 1
+                recs[i] = r
+        if still:
+            break
+    return recs
+
+
 def evaluate(ctx, progs, tag):
     """model + spec + rendered text from Coq, then the implementation"""
     terms = ['run_case "%s"%%string' % wire_of(p) for p in progs]
     pre = yvlib.coq_eval(["YV:IterLang"], ["prelude"], tag="C18pre", preamble="Open Scope string_scope.\n")[0]
+    t0 = time.time()
     vals = yvlib.coq_eval(["YV:IterLang"], terms, shard_size=max(20, min(120, len(terms) // yvlib.NPROC + 1)), tag="C18" + tag, preamble="Open Scope string_scope.\n")
+    t1 = time.time()
+    TIMING["model_" + tag] = round(TIMING.get("model_" + tag, 0) + t1 - t0, 1)
     for p, v in zip(progs, vals):
         if v is None:
             p["bad"] = True
@@ -800,8 +1038,9 @@ def evaluate(ctx, progs, tag):
     ok = [p for p in progs if not p.get("bad")]
     binary = ctx.harness(PROFILE[0])
     # long-run programs would overflow the trace: they are run plainly (no stack-height comparison)
-    recs = yvlib.run_harness(binary, [("run - " if p.get("notrace") else "trace - %d " % TRACE_LIMIT) + hx(p["src"]) for p in ok],
-                             case_timeout_ms=CASE_TIMEOUT_MS)
+    recs = yvlib.run_harness(binary, [harness_line(p) for p in ok], case_timeout_ms=CASE_TIMEOUT_MS)
+    recs = retry_crashed(binary, ok, recs)
+    TIMING["impl_" + tag] = round(TIMING.get("impl_" + tag, 0) + time.time() - t1, 1)
     nil, pop = opcode_numbers()
     for p, r in zip(ok, recs):
         p["impl"] = r.output
@@ -845,7 +1084,7 @@ def judge(ctx, p, stats):
         ctx.violation("printed sequence differs from the Spec (elements + List.map/filter/fold_left)", input=p["src"],
                       expected=p["spec"][:60], actual=public(p["impl"])[:60] + ([] if res_ok else [str(p["impl_res"]), str(getattr(p.get("rec"), "messages", ""))[:200]]), known_class=kc,
                       wire=wire, stream=p["stream"])
-    if not h_ok:
+    if not h_ok and (res_ok or s_ok):     # (a run that ended in an error was reported just above)
         # the VM's stack at the statement following a loop is not what it was before the loop
         ctx.violation("iteration state left on the VM stack: height at the markers around the loops differs from the "
                       "model's hidden locals", input=p["src"], expected=rel(p["mech_h"]), actual=p["impl_h"],
@@ -858,16 +1097,28 @@ def judge(ctx, p, stats):
     stats["checked"] += 1
 
 
-def reference_compare(ctx, progs):
+REF_BUDGET_S = 60
+
+
+def reference_compare(ctx, progs, budget_s=None):
     """third party: the full reference interpreter of the language (SpecRun/ParseRun/SpecScripts, other owners)"""
     need = ("SpecRun.vo", "ParseRun.vo", "SpecScripts.vo")
     if not all(os.path.exists(os.path.join(yvlib.COQ, "theories", f)) for f in need):
         ctx.notes.append("SpecRun/ParseRun/SpecScripts not built: comparison with the full reference interpreter skipped")
         return {"compared": 0}
-    vals = yvlib.coq_eval(["YV:SpecScripts"], ['run_case 400 [] "%s"' % hx(p["src"]) for p in progs],
-                          shard_size=max(4, (len(progs) + 2 * yvlib.NPROC - 1) // (2 * yvlib.NPROC)), tag="C18ref",
-                          preamble="Open Scope string_scope.\n")
-    st = {"compared": 0, "equal": 0, "undetermined": 0, "disagrees_with_impl_M_S": 0}
+    # bounded in quick: rounds of 4 programs per core until the time budget is used up (the interpreter of the whole
+    # language is slow on a loaded machine; the programs the Spec leaves open come first)
+    vals = []
+    t0 = time.time()
+    step = max(32, 4 * yvlib.NPROC) if budget_s else len(progs)
+    for k in range(0, len(progs), step):
+        if budget_s and k and time.time() - t0 > budget_s:
+            break
+        part = progs[k:k + step]
+        vals += yvlib.coq_eval(["YV:SpecScripts"], ['run_case 400 [] "%s"' % hx(p["src"]) for p in part],
+                               shard_size=max(4, (len(part) + 2 * yvlib.NPROC - 1) // (2 * yvlib.NPROC)), tag="C18ref",
+                               preamble="Open Scope string_scope.\n")
+    st = {"offered": len(progs), "evaluated": len(vals), "compared": 0, "equal": 0, "undetermined": 0, "disagrees_with_impl_M_S": 0}
     for p, v in zip(progs, vals):
         m = re.match(r"^out=\[([0-9a-f,]*)\];res=ok:", v or "")
         if not m:
@@ -928,18 +1179,57 @@ def nontrivial(p):
     return (f["chain"] >= 2 or f["nest"] >= 2) and f["elems"] >= 2 and p.get("early", 0) >= 1
 
 
-def shrink_body(body):
-    """candidate smaller bodies: drop one statement anywhere"""
+def shrink_iexp(e):
+    """smaller string literals at the base of a chain: halves, then single characters dropped"""
+    if e[0] in ("map", "filter"):
+        for b in shrink_iexp(e[2]):
+            yield (e[0], e[1], b)
+    elif e[0] == "str" and len(e[1]) > 1:
+        s = e[1]
+        h = len(s) // 2
+        yield ("str", s[:h])
+        yield ("str", s[h:])
+        if len(s) <= 6:
+            for i in range(len(s)):
+                yield ("str", s[:i] + s[i + 1:])
+
+
+def shrink_strings(body):
+    for i, s in enumerate(body):
+        if s[0] == "for":
+            for e in shrink_iexp(s[1]):
+                yield body[:i] + [("for", e, s[2])] + body[i + 1:]
+            for b in shrink_strings(s[2]):
+                yield body[:i] + [("for", s[1], b)] + body[i + 1:]
+        elif s[0] == "collect":
+            for e in shrink_iexp(s[1]):
+                yield body[:i] + [("collect", e)] + body[i + 1:]
+        elif s[0] == "let":
+            for e in shrink_iexp(s[2]):
+                yield body[:i] + [("let", s[1], e)] + body[i + 1:]
+        elif s[0] == "reduce":
+            for e in shrink_iexp(s[3]):
+                yield body[:i] + [("reduce", s[1], s[2], e)] + body[i + 1:]
+
+
+def shrink_body(body, strings=True):
+    """candidate smaller bodies: drop one statement anywhere; then shorter string literals"""
+    for b in shrink_body(body, False) if strings else []:
+        yield b
+    if strings:
+        for b in shrink_strings(body):
+            yield b
+        return
     for i in range(len(body)):
         yield body[:i] + body[i + 1:]
         s = body[i]
         if s[0] == "for":
-            for b in shrink_body(s[2]):
+            for b in shrink_body(s[2], False):
                 yield body[:i] + [("for", s[1], b)] + body[i + 1:]
             if s[1][0] in ("map", "filter"):
                 yield body[:i] + [("for", s[1][2], s[2])] + body[i + 1:]
         elif s[0] == "if":
-            for b in shrink_body(s[3]):
+            for b in shrink_body(s[3], False):
                 if b:
                     yield body[:i] + [("if", s[1], s[2], b)] + body[i + 1:]
 
@@ -951,34 +1241,38 @@ class _Shim:
 
 
 def shrink(ctx, p):
+    """bounded: at most 30 re-runs; candidates (statement drops first, then shorter string literals) are tried in chunks
+    of 8 - a chunk without a failing candidate moves on to the next chunk of the same program"""
     budget = 30
     cur = p
     progress = True
     while progress and budget > 0:
         progress = False
-        cands = []
-        for b in shrink_body(cur["body"]):
-            if not b or (has(b, "return") and not cur["fun"]):
-                continue
-            cands.append({"fun": cur["fun"], "loc": cur["loc"], "dir": cur.get("dir", False), "body": b, "stream": cur["stream"],
-                          "fuel": cur.get("fuel", 150), "notrace": cur.get("notrace", False)})
-            if len(cands) >= min(8, budget):
-                break
-        if not cands:
-            break
-        budget -= len(cands)
-        tmp = _Shim(ctx)
-        try:
-            done = evaluate(tmp, cands, "shrink")
-        except Exception:
-            break
-        for c in done:
-            if c["spec"] != ["SKIP"] and (c["impl_res"][0] != "ok" or public(c["impl"]) != c["spec"]):
-                c["facts"] = facts(c["body"])
-                if known_class_of(c) == known_class_of(p):
-                    cur = c
-                    progress = True
+        gen = shrink_body(cur["body"])
+        while budget > 0 and not progress:
+            cands = []
+            for b in gen:
+                if not b or (has(b, "return") and not cur["fun"]):
+                    continue
+                cands.append({"fun": cur["fun"], "loc": cur["loc"], "dir": cur.get("dir", False), "body": b, "stream": cur["stream"],
+                              "fuel": cur.get("fuel", 150), "notrace": cur.get("notrace", False)})
+                if len(cands) >= min(8, budget):
                     break
+            if not cands:
+                break
+            budget -= len(cands)
+            tmp = _Shim(ctx)
+            try:
+                done = evaluate(tmp, cands, "shrink")
+            except Exception:
+                return cur
+            for c in done:
+                if c["spec"] != ["SKIP"] and (c["impl_res"][0] != "ok" or public(c["impl"]) != c["spec"]):
+                    c["facts"] = facts(c["body"])
+                    if known_class_of(c) == known_class_of(p):
+                        cur = c
+                        progress = True
+                        break
     return cur
 
 
@@ -1007,6 +1301,11 @@ def run(ctx):
         p.setdefault("dir", rng.random() < 0.5)
         p["facts"] = facts(p["body"])
     check_consumer_table(ctx, progs)
+    check_alphabet_against_model(ctx)
+    u8 = utf8_coverage(progs)
+    ctx.cov["utf8_alphabet"] = u8
+    if u8["lead_bytes_missing"] or u8["boundary_code_points_missing"] or u8["lead_bytes_as_data_missing"]:
+        ctx.broken.append("generator self-check: the string alphabet does not cover the whole UTF-8 table: %s" % u8)
     # a first batch across all streams: if the implementation already fails broadly there (a mutant that makes
     # loops endless costs CASE_TIMEOUT_MS per program) the rest of the run adds nothing but time
     first = progs[::7]
@@ -1060,7 +1359,12 @@ def run(ctx):
     }
     if stats["model_fuel"]:
         ctx.notes.append("%d programs ran out of model fuel (skipped): %s" % (stats["model_fuel"], stats.get("fuel_wires", [])[:3]))
-    refstats = reference_compare(ctx, done if not quick else done[::2]) if not ctx.violations else {"compared": 0, "skipped": "violations found"}
+    t0 = time.time()
+    # quick: every program the list-level Spec leaves open (there the reference interpreter is the only second opinion
+    # besides M) + every 4th of the others
+    refset = done if not quick else ([p for p in done if p["spec"] == ["SKIP"]] + [p for i, p in enumerate(done) if p["spec"] != ["SKIP"] and i % 4 == 0])
+    refstats = reference_compare(ctx, refset, REF_BUDGET_S if quick else None) if not ctx.violations else {"compared": 0, "skipped": "violations found"}
+    TIMING["reference_interpreter"] = round(time.time() - t0, 1)
     sample = next((p for p in done if nontrivial(p)), done[0])
     ctx.cov.update({
         "evaluations": len(done),
@@ -1068,13 +1372,16 @@ def run(ctx):
         "rule": "programs of IterLang: directed streams (every iterable kind x {empty, one, many, multi-byte} x chains of depth 0..3; "
                 "every placement of break/continue/return x kind x iteration x before/after the body x single/inner/outer loop; "
                 "shared iterators with manual next(); two loops over one iterable; push/pop/rebinding of the iterated vector; "
-                "subclass sentinel; bodies with locals) + random compositions.  non-trivial = a chain of depth >= 2 or a nested "
+                "subclass sentinel; bodies with locals; strings over every lead byte 0xC2..0xF4 and every width/second-byte "
+                "boundary of UTF-8, iterated and as data: see utf8_alphabet) + random compositions.  non-trivial = a chain of depth >= 2 or a nested "
                 "loop, the iterable has >= 2 elements, and the model measured at least one round ended by break/return "
                 "(distinct wire encodings counted)",
         "traces_validated_against_impl": stats["checked"],
         "spec_compared": stats["spec_checked"], "spec_undetermined": stats["spec_skip"],
         "reference_interpreter": refstats,
         "input_distribution": dist,
+        "timing_s": dict(TIMING),
+        "cases_rerun_alone_after_timeout": {"rerun": RETRIED[0], "finished_then": RETRIED[1]},
         "samples": [sample["src"][sample["src"].index("var c0"):][:1500], wire_of(sample)],
     })
 
